@@ -490,7 +490,8 @@ def _big_job(job):
     import numpy as np
     import lazy_dataset
     form, n, b, seed = job
-    rec = {'form': form, 'n': n, 'b': b, 'size': n, 'epochs': [], 'exc': 'none', 'seed': seed}
+    rec = {'form': form, 'n': n, 'b': b, 'size': n, 'drop': [], 'epochs': [], 'exc': 'none',
+           'seed': seed}
     rng = np.random.RandomState(seed)
     try:
         with warnings.catch_warnings():
@@ -517,9 +518,23 @@ def _big_job(job):
             elif form == 'choice':
                 rec['size'] = n // 2
                 ds = src.random_choice(n // 2, replace=False, rng_state=rng)
+            elif form in ('catch-reshuffle', 'prefetch-catch-reshuffle'):
+                # a failing map below catch(), a per-epoch reshuffle below that:
+                # every epoch drops exactly the failing examples, wherever they
+                # are in this epoch's order
+                rec['drop'] = sorted({1 % n, n // 2, n - 1})
+                rec['size'] = n - len(rec['drop'])
+
+                def fails(x, bad=frozenset(rec['drop'])):
+                    if x in bad:
+                        raise lazy_dataset.FilterException(x)
+                    return x
+                ds = src.shuffle(True, rng=rng).map(fails)
+                ds = ds.catch() if form == 'catch-reshuffle' else \
+                    ds.prefetch(2, 4, catch_filter_exception=True)
             else:
                 raise ValueError(form)
-            for _ in range(2):
+            for _ in range(3 if rec['drop'] else 2):
                 acc = []
                 for x in ds:
                     _flat(x, acc)
@@ -532,6 +547,10 @@ def _big_job(job):
 def big_sizes(tier, res):
     """C12 above 2^8 / 2^16 examples (real generators, code -> spec only)."""
     jobs = []
+    for n in (2, 3, 5, 8, 13):
+        for form in ('catch-reshuffle', 'prefetch-catch-reshuffle'):
+            for s_ in range(3 if tier == 'quick' else 12):
+                jobs.append((form, n, 0, common.seed() + 100 * n + s_))
     for n in BIG[tier]:
         for form in ('reshuffle', 'batch-reshuffle', 'reshuffle-batch', 'batch-once', 'once',
                      'frozen', 'local', 'tile', 'choice'):
@@ -543,8 +562,8 @@ def big_sizes(tier, res):
         r['id'] = i + 1
     try:
         verdicts, st = validate_records(
-            [{k: r[k] for k in ('id', 'form', 'n', 'b', 'size', 'epochs', 'exc')} for r in recs],
-            module='RandomBigTrace.tla', cfg='RandomBigTrace.cfg', chunk=8)
+            [{k: r[k] for k in ('id', 'form', 'n', 'b', 'size', 'drop', 'epochs', 'exc')} for r in recs],
+            module='RandomBigTrace.tla', cfg='RandomBigTrace.cfg', chunk=16)
     except tlc.TlcError as e:
         res.machinery_errors.append(str(e))
         return
@@ -710,7 +729,7 @@ def replay(prop, path):
     if rp.get('family') == 'random-big':
         rec = _big_job(tuple(rp['job']))
         rec['id'] = 1
-        v, _ = validate_records([{k: rec[k] for k in ('id', 'form', 'n', 'b', 'size', 'epochs', 'exc')}],
+        v, _ = validate_records([{k: rec[k] for k in ('id', 'form', 'n', 'b', 'size', 'drop', 'epochs', 'exc')}],
                                 module='RandomBigTrace.tla', cfg='RandomBigTrace.cfg')
         print(rp['job'], 'epoch sizes', [len(e) for e in rec['epochs']], rec['exc'], v[1]['C12'])
         return 1 if v[1]['C12'][0] == 'viol' else 0
